@@ -3,7 +3,11 @@
 // Oracle: the doubles record which injected fault was actually reached; the
 // engine's result must carry a reached fault (never nil), be nil when nothing
 // failed, be the context error after an in-progress cancel, and everything the
-// engine started must stop.
+// engine started must stop - by the engine's own doing: the harness cancels its
+// context only where the case says so (after the failure of one pool next to
+// pools that would shoot for a minute nobody but the engine stops them), and
+// "closable guns are closed" is judged at the instant Run returns nil / Wait
+// returns, with guns whose Close takes 1-50 ms.
 package c05
 
 import (
@@ -101,6 +105,19 @@ func genPool(t *rapid.T, faulty bool) PoolCase {
 		WarmUp: rapid.Bool().Draw(t, "warmup"),
 		Closer: rapid.IntRange(0, 3).Draw(t, "closer") != 0,
 	}
+	if p.Gun.Closer && rapid.IntRange(0, 2).Draw(t, "slowClose") == 0 {
+		// Close of a gun is not instantaneous (flushes a log, closes connections): 1-50 ms, per instance, some instant
+		p.Gun.CloseDelayUs = rapid.SliceOfN(rapid.OneOf(rapid.Just(0), rapid.IntRange(1000, 5000), rapid.IntRange(1000, 5000),
+			rapid.IntRange(5000, 50000)), 1, 4).Draw(t, "closeDelayUs")
+		slow := false
+		for _, us := range p.Gun.CloseDelayUs {
+			slow = slow || us > 0
+		}
+		if !slow {
+			at := rapid.IntRange(0, len(p.Gun.CloseDelayUs)-1).Draw(t, "closeDelayAt")
+			p.Gun.CloseDelayUs[at] = rapid.IntRange(1000, 50000).Draw(t, "closeDelayUs1")
+		}
+	}
 	if !faulty {
 		return p
 	}
@@ -155,14 +172,20 @@ func genCase(t *rapid.T) Case {
 		c.Cancel = rapid.SampledFrom([]string{"before", "during", "during", "during"}).Draw(t, "cancel")
 		c.CancelAfterUs = rapid.SampledFrom([]int{0, 50, 300, 1000, 3000, 10000}).Draw(t, "cancelAfterUs")
 	}
+	// several pools, one fails by itself, nobody cancels: the engine has to stop the others
+	unstoppable := false
+	if n > 1 && mode == "fault" && rapid.IntRange(0, 2).Draw(t, "unstoppableSibling") != 0 {
+		unstoppable = true
+		genUnstoppableSiblings(t, &c, faultyPool)
+	}
 	// a pool that can only be ended from outside needs a cancel or a fault somewhere
 	endless := false
 	for _, p := range c.Pools {
-		if p.Profile == "long" && p.Prov.Total < 0 {
+		if p.endless() {
 			endless = true
 		}
 	}
-	if endless && c.Cancel == "" {
+	if endless && c.Cancel == "" && !unstoppable {
 		c.Cancel = "during"
 		c.CancelAfterUs = rapid.SampledFrom([]int{300, 3000, 10000}).Draw(t, "cancelAfterUs2")
 	}
@@ -170,6 +193,50 @@ func genCase(t *rapid.T) Case {
 	genIDs(t, &c)
 	genSlowSteps(t, &c)
 	return c
+}
+
+// endless: the pool's instances never run out of ammo or schedule within a run of the harness (60 s of schedule,
+// unbounded ammo): only a failure or a cancel ends it.
+func (p PoolCase) endless() bool { return p.Profile == "long" && p.Prov.Total < 0 }
+
+// genUnstoppableSiblings: the run is ended by the failure of pool `faulty` alone - the caller never cancels - while one
+// or all of the other pools would go on for a minute: it is the engine that has to stop them. For that the fault plan
+// of the faulty pool must be reached whatever the other pools do:
+//   - faults at the first call of a step every pool goes through (provider before its first ammo, aggregator at
+//     start, gun factory call 0 = the warm-up probe, WarmUp, Bind 0, schedule factory call 0) always are;
+//   - provider / aggregator faults "at the very end" are reached when the pool's own instances have finished: its
+//     own work is made finite;
+//   - faults after k ammo / k reports, at shot j, at factory / Bind / schedule-factory call i > 0 are reached when
+//     the pool's own instances keep shooting and are all started: its own work is made endless as well.
+func genUnstoppableSiblings(t *rapid.T, c *Case, faulty int) {
+	p := &c.Pools[faulty]
+	finite := func() {
+		if p.endless() {
+			p.Prov.Total = rapid.SampledFrom([]int{0, 1, 5, 40}).Draw(t, "finiteAmmo")
+		}
+	}
+	forever := func() { p.Profile, p.Prov.Total = "long", -1 }
+	switch {
+	case p.Prov.Fault == "before_first", p.Agg.Fault == "start", p.Gun.WarmUpErr, p.Gun.FactoryErrAt == 0,
+		p.Gun.BindErrAt == 0, p.SchedErrAt == 0:
+	case p.Prov.Fault == "at_end", p.Agg.Fault == "at_end":
+		finite()
+	default:
+		forever()
+	}
+	// which of the others cannot end by themselves: one of them, or all
+	others := []int{}
+	for i := range c.Pools {
+		if i != faulty {
+			others = append(others, i)
+		}
+	}
+	if len(others) > 1 && rapid.Bool().Draw(t, "oneSibling") {
+		others = []int{others[rapid.IntRange(0, len(others)-1).Draw(t, "sibling")]}
+	}
+	for _, i := range others {
+		c.Pools[i].Profile, c.Pools[i].Prov.Total = "long", -1
+	}
 }
 
 var poolNames = []string{"", "", "main", "HTTP pool", "grpc-pool", "pool_0", "pool_1", "pool_2", "пул/1"}
@@ -380,9 +447,14 @@ func once(c Case, o *vf.Obs, classify bool) error {
 	}
 	var runErr error
 	var runReturned time.Time
+	var openAtRunNil []string
 	done := make(chan struct{})
 	go func() {
 		runErr = eng.Run(ctx)
+		if runErr == nil {
+			// "successful run awaits all started tasks": judged at this instant, not later
+			openAtRunNil = openGuns(prs)
+		}
 		runReturned = time.Now()
 		close(done)
 	}()
@@ -453,10 +525,23 @@ func once(c Case, o *vf.Obs, classify bool) error {
 		}
 	}
 	// ---- everything stops ----
-	cancel() // the caller is done with the engine: contexts derived from ours end
-	okWait, stacks := vf.Deadline(runDeadline, eng.Wait)
+	// The caller's context is left alone here (it is cancelled only where the case says so, and when once returns):
+	// after a failure of one pool it is the engine that has to stop everything else it started.
+	callerCancelled := ctx.Err() != nil
+	if len(openAtRunNil) > 0 {
+		return fmt.Errorf("at the instant Engine.Run returned nil: %s", strings.Join(openAtRunNil, "; "))
+	}
+	var openAtWait []string
+	okWait, stacks := vf.Deadline(runDeadline, func() {
+		eng.Wait()
+		openAtWait = openGuns(prs)
+	})
 	if !okWait {
-		return fmt.Errorf("Engine.Wait did not return within %v after Run returned %v (reached faults: %v)\n%s", runDeadline, runErr, reached, stacks)
+		return fmt.Errorf("Engine.Wait did not return within %v after Run returned %v (reached faults: %v; caller's context cancelled: %v; pools that cannot end by themselves: %v)\n%s",
+			runDeadline, runErr, reached, callerCancelled, endlessPools(c), stacks)
+	}
+	if len(openAtWait) > 0 {
+		return fmt.Errorf("at the instant Engine.Wait returned (Run returned %v): %s", runErr, strings.Join(openAtWait, "; "))
 	}
 	deadline := time.Now().Add(runDeadline)
 	for i, pr := range prs {
@@ -507,6 +592,36 @@ func once(c Case, o *vf.Obs, classify bool) error {
 		for _, r := range reached {
 			o.Class("fault_" + r[strings.Index(r, ":")+1:])
 		}
+		// one pool failed by itself, the caller never cancelled, another pool had a minute of work left
+		if carriesFault && !callerCancelled && len(c.Pools) > 1 {
+			for i, pr := range prs {
+				if len(pr.reached()) > 0 {
+					continue
+				}
+				if pr.pc.endless() {
+					o.Class("pool_failed_no_caller_cancel_sibling_endless")
+					o.ClassIf(pr.guns.ShotCount() > 0, "pool_failed_no_caller_cancel_sibling_was_shooting")
+					o.ClassIf(i == 0, "pool_failed_no_caller_cancel_sibling_is_first_pool")
+					break
+				}
+			}
+		}
+		slowClosed, slowClosedFirst, slowClosedLater := false, false, false
+		for _, pr := range prs {
+			for _, g := range pr.guns.GunsSnapshot() {
+				if g.BindOK && g.Closed.Load() == 1 && g.CloseDelay() > 0 {
+					slowClosed = true
+					slowClosedFirst = slowClosedFirst || g.Deps.InstanceID == 0
+					slowClosedLater = slowClosedLater || g.Deps.InstanceID > 0
+				}
+			}
+		}
+		o.ClassIf(slowClosed, "slow_gun_close")
+		o.ClassIf(slowClosedFirst, "slow_gun_close_instance_0")
+		o.ClassIf(slowClosedLater, "slow_gun_close_instance_gt_0")
+		o.ClassIf(slowClosed && runErr == nil, "slow_gun_close_result_nil")
+		o.ClassIf(slowClosed && isCtxErr, "slow_gun_close_result_ctx_err")
+		o.ClassIf(slowClosed && carriesFault, "slow_gun_close_result_fault")
 		for _, pr := range prs {
 			if pr.prov.FaultReached.Load() {
 				o.Class("provider_fault_" + pr.pc.Prov.Fault)
@@ -571,6 +686,34 @@ func once(c Case, o *vf.Obs, classify bool) error {
 		o.Note("result", fmt.Sprint(runErr))
 	}
 	return nil
+}
+
+// openGuns lists the bound closable guns whose Close has not returned (or was called more than once) at the instant
+// of the call.
+func openGuns(prs []*poolRun) []string {
+	var out []string
+	for i, pr := range prs {
+		if !pr.pc.Gun.Closer {
+			continue
+		}
+		for _, g := range pr.guns.GunsSnapshot() {
+			if g.BindOK && g.Closed.Load() != 1 {
+				out = append(out, fmt.Sprintf("pool%d: closable gun %d (instance %d, bound) has %d finished Close calls (%d entered; its Close takes %d us)",
+					i, g.Idx, g.Deps.InstanceID, g.Closed.Load(), g.CloseEntered.Load(), g.CloseDelay()))
+			}
+		}
+	}
+	return out
+}
+
+func endlessPools(c Case) []int {
+	out := []int{}
+	for i, pc := range c.Pools {
+		if pc.endless() {
+			out = append(out, i)
+		}
+	}
+	return out
 }
 
 // workComplete: the pool had nothing left to do (all tokens consumed or all ammo used).
